@@ -208,6 +208,80 @@ def run_company(c):
     return r
 
 
+# ----------------------------------------------------------------------
+# part `hotspot`: the hot-spot results of an assembly do not depend on who shares its type
+HS_FUEL = {'clad_material': 'ht9_se2anl_425', 'gap_material': 'sodium_se2anl_425', 'gap_thickness': 0.0,
+           'r_frac': [0.0, 0.33333, 0.66667], 'pu_frac': [0.2, 0.2, 0.2], 'zr_frac': [0.1, 0.1, 0.1],
+           'porosity': [0.1, 0.1, 0.1], 'htc_params_clad': [0.023, 0.8, 0.4, 7.0]}
+HS_BLOCK = {'hs_cool': {'temperature': 'coolant', 'subfactors': 'crbr_fuel_clad_mw', 'input_sigma': 3, 'output_sigma': 2},
+            'hs_clad': {'temperature': 'clad_mw', 'subfactors': 'crbr_fuel_clad_mw'},
+            'hs_fuel': {'temperature': 'fuel_cl', 'subfactors': 'fftf_fuel_cl'}}
+
+
+def hotspot_cases(tier):
+    out = []
+    for sib in (['zero'], ['half'], ['zero', 'full'], ['full', 'zero', 'half']):
+        out.append({'part': 'hotspot', 'siblings': sib})
+    return out
+
+
+def run_hotspot(c):
+    """adiabatic core: the hot-spot temperatures (hotspot.analyze) of the centre assembly with siblings of its own type
+    (unpowered / half power / full power) equal those of the same assembly alone"""
+    from dassh import hotspot
+    r = new_result()
+    V = r['violations']
+    dsn = S.design(2, fuelmodel=dict(HS_FUEL), hotspot={k: dict(v) for k, v in HS_BLOCK.items()})
+    L = 0.3
+
+    def scn_for(sibs):
+        pos = S.core_positions(2)
+        assign = [['A', 1, 1, {'flowrate': 0.4}]]
+        pw = {'1': {'rings': 2, 'cells': [0.0, L], 'q': 9000.0, 'pins': 'tilt', 'seed': 1}}
+        for k_, kind in enumerate(sibs):
+            rg, ps = pos[k_ + 1]
+            assign.append(['A', rg, ps, {'flowrate': 0.4}])
+            lvl = {'zero': 0.0, 'half': 0.5, 'full': 1.0}[kind]
+            pw[str(S.asm_id(rg, ps) + 1)] = {'rings': 2, 'cells': [0.0, L], 'q': 9000.0 * lvl,
+                                             'pins': 'zero' if lvl == 0.0 else 'tilt', 'seed': 2 + k_}
+        return {'setup': {'axial_mesh_size': 0.01},
+                'core': {'inlet': 623.15, 'length': L, 'pitch': round(max(dsn['duct_ftf']) + 0.004, 9),
+                         'gap_model': 'none', 'bypass_fraction': 0.0},
+                'types': {'A': dict(dsn)}, 'assign': assign, 'power': {'asm': pw}}
+
+    def results(sibs):
+        with S.Built(scn_for(sibs)) as b:
+            rx = b.reactor()
+            rx.temperature_sweep()
+            temps, ids = hotspot.analyze(rx)
+            out = {}
+            for key in sorted(temps):
+                idl = [int(x) for x in ids[key]] if isinstance(ids, dict) else [int(x) for x in ids]
+                out[key] = np.array(temps[key], dtype=float)[idl.index(0)].copy()
+            return out, len(rx.z)
+    try:
+        ref, n = results([])
+        got, _ = results(c['siblings'])
+    except (Exception, SystemExit) as e:
+        V.append(violation('hotspot-exception', c, '%s: %s' % (type(e).__name__, str(e)[:200]), site=site_of(e)))
+        r['outcome'] = 'violation'
+        return r
+    r['states'] = 2 * n
+    r['transitions'] = 2 * (n - 1)
+    r['traces'] = 2
+    r['nontrivial'] = True
+    for key in sorted(ref):
+        dev = float(np.max(np.abs(ref[key] - got[key])))
+        if not dev <= 1e-9:
+            V.append(violation('hotspot-depends-on-company', dict(c, key=str(key)),
+                               'hot-spot temperatures %s of the centre assembly differ from those of the same assembly '
+                               'alone when assemblies of its type (%s) are loaded next to it' % (key, ', '.join(c['siblings'])),
+                               dev, 0.0, 1e-9, site='hotspot.py:analyze'))
+            break
+    r['outcome'] = 'ok' if not V else 'violation'
+    return r
+
+
 def run_order(c):
     r = new_result()
     V = r['violations']
@@ -480,6 +554,7 @@ def main(run):
     for c in rl:
         c['seed'] = run.seed % 4
     run.explore('rangeline', rl, run_rangeline, budget_s=300)
+    run.explore('hotspot', hotspot_cases(run.tier), run_hotspot, budget_s=300, chunksize=1)
     # what is stored and printed per assembly is that assembly's own: energy-balance table of cores with several
     # positions of one type (vf/props/reports.py)
     from . import reports
@@ -496,8 +571,8 @@ def replay(body):
         from . import reports
         return reports.replay(body)
     fn = {'company': run_company, 'order': run_order, 'schedule': run_schedule,
-          'isolation': run_isolation, 'rangeline': run_rangeline}[body.get('part') or 'company']
-    c = {k: v for k, v in body['scenario'].items() if k not in ('perm', 'attr')}
+          'isolation': run_isolation, 'rangeline': run_rangeline, 'hotspot': run_hotspot}[body.get('part') or 'company']
+    c = {k: v for k, v in body['scenario'].items() if k not in ('perm', 'attr', 'key')}
     r = guarded(fn, c, 900)
     for v in r['violations']:
         print('VIOLATION property=C06 replay=(inline) kind=%s %s observed=%s' % (v['kind'], v['what'], v.get('observed')))
